@@ -112,6 +112,11 @@ type rewriteStats struct {
 // offline); if the package does not type-check, rule 3 degrades to
 // name-based bracketing of x.Lock()/x.Unlock() and rule 5 is skipped.
 func rewriteDir(dir string) (poolRefs, points int, err error) {
+	defer func() {
+		if r := recover(); r != nil {
+			err = fmt.Errorf("rewriter panicked on %s: %v", dir, r)
+		}
+	}()
 	ents, err := os.ReadDir(dir)
 	if err != nil {
 		return 0, 0, err
@@ -155,7 +160,7 @@ func rewriteDir(dir string) (poolRefs, points int, err error) {
 			src[p] = data
 		}
 	}
-	rw := &rewriter{info: info, typed: typed && os.Getenv("VERIF_NO_TYPES") == "", fset: fset, points: &pointTable, src: src}
+	rw := &rewriter{info: info, typed: typed && os.Getenv("VERIF_NO_TYPES") == "" && rewriteLevel >= 2, fset: fset, points: &pointTable, src: src}
 	for i, f := range files {
 		n, pts, err := rw.file(fset, f, paths[i])
 		if err != nil {
@@ -168,6 +173,13 @@ func rewriteDir(dir string) (poolRefs, points int, err error) {
 }
 
 var filesSeen int
+
+// rewriteLevel: 2 = everything (type-aware), 1 = inner points and name-based
+// lock bracketing only, 0 = only sync.Pool is re-pointed. buildFor steps down
+// when the rewriter fails or the rewritten tree does not compile, so that a
+// construct the rewriter mishandles degrades the exploration instead of
+// breaking the check.
+var rewriteLevel = 2
 
 // pointTable names the inner yield points of the current scratch build.
 var pointTable = []string{""}
@@ -190,6 +202,12 @@ func (rw *rewriter) point(s ast.Stmt) ast.Stmt {
 		end := rw.fset.Position(s.End()).Offset
 		if end > len(src) {
 			end = len(src)
+		}
+		if end <= pos.Offset { // the statement ends in a node synthesised by an earlier rewrite
+			end = pos.Offset
+			for end < len(src) && src[end] != '\n' {
+				end++
+			}
 		}
 		text = string(src[pos.Offset:end])
 		if i := strings.IndexByte(text, '\n'); i >= 0 {
@@ -242,7 +260,7 @@ func (rw *rewriter) file(fset *token.FileSet, f *ast.File, path string) (poolRef
 		})
 	}
 	var touched map[string]bool
-	if os.Getenv("VERIF_NO_INNER") == "" {
+	if os.Getenv("VERIF_NO_INNER") == "" && rewriteLevel >= 1 {
 		if rw.typed {
 			touched = rw.retime(f)
 			rw.recvExprs(f)
@@ -368,7 +386,15 @@ func (rw *rewriter) recvExprs(f *ast.File) {
 		return true
 	})
 	exprT := reflect.TypeOf((*ast.Expr)(nil)).Elem()
+	wrapped := map[*ast.CallExpr]bool{}
 	fix := func(e ast.Expr) ast.Expr {
+		if call, ok := e.(*ast.CallExpr); ok && !protected[call] && !wrapped[call] && rw.atomicCall(call) {
+			wrapped[call] = true
+			// x.Load() -> simrt.AfterOp(x.Load()): an inner yield point right after
+			// the atomic operation, so that a window between two atomic
+			// operations of ONE statement can be reached too
+			return &ast.CallExpr{Fun: simrtFn("AfterOp"), Args: []ast.Expr{call}}
+		}
 		u, ok := e.(*ast.UnaryExpr)
 		if !ok || u.Op != token.ARROW || protected[u] || !rw.isChan(u.X) {
 			return e
@@ -439,6 +465,27 @@ func (rw *rewriter) recvExprs(f *ast.File) {
 		}
 		return true
 	})
+}
+
+// atomicCall reports whether call invokes a function or method of sync/atomic
+// that returns exactly one value.
+func (rw *rewriter) atomicCall(call *ast.CallExpr) bool {
+	var fn *types.Func
+	switch f := call.Fun.(type) {
+	case *ast.SelectorExpr:
+		if si := rw.info.Selections[f]; si != nil {
+			fn, _ = si.Obj().(*types.Func)
+		} else {
+			fn, _ = rw.info.Uses[f.Sel].(*types.Func)
+		}
+	case *ast.Ident:
+		fn, _ = rw.info.Uses[f].(*types.Func)
+	}
+	if fn == nil || fn.Pkg() == nil || fn.Pkg().Path() != "sync/atomic" {
+		return false
+	}
+	sig, ok := fn.Type().(*types.Signature)
+	return ok && sig.Results().Len() == 1
 }
 
 // syncMethod returns the full name of the sync method a call invokes, e.g.
